@@ -252,6 +252,13 @@ def gen_call(rng, tier, units=False):
              entry=rng.choice(['arr', 'arr', 'df']), coord_dtype=rng.choice(['int', 'float', 'frac']))
     if units:
         c['unit'] = unit
+    # how the two arrays reach the engines: separate buffers; ONE array object passed twice (locate without preprocessing);
+    # or two channel views of one interleaved buffer (image[..., 0] / image[..., 1] of a colour frame: they share memory,
+    # are not contiguous, and hold different numbers)
+    if rawkind == 'same':
+        c['layout'] = rng.choice(['separate', 'alias'])
+    elif dt != 'uint8':
+        c['layout'] = rng.choice(['separate', 'separate', 'interleaved'])
     return c
 
 
@@ -336,6 +343,12 @@ def arrays_of(c):
     else:
         img = img.astype(dt)
         raw = raw.astype(dt)
+    lay = c.get('layout', 'separate')
+    if lay == 'alias' and img.dtype == raw.dtype and np.array_equal(img, raw):
+        raw = img
+    elif lay == 'interleaved' and img.dtype == raw.dtype:
+        buf = np.stack([img, raw], axis=-1)
+        img, raw = buf[..., 0], buf[..., 1]
     co = np.array(c['starts'], dtype=np.int64)
     if c['coord_dtype'] == 'float':
         co = co.astype(np.float64)
@@ -451,6 +464,7 @@ def evaluate(chk, calls, tag='cases'):
         chk.tally('ndim=%d' % c['ndim']); chk.tally('image=' + c['kind']); chk.tally('dtype=' + c['dtype'])
         chk.tally('isotropic' if len(set(c['radius'])) == 1 else 'anisotropic')
         chk.tally('characterize=%s' % c['characterize']); chk.tally('entry=' + c['entry'])
+        chk.tally('array layout=' + c.get('layout', 'separate'))
         chk.tally('max_iterations=%s' % (c['max_iterations'] if c['max_iterations'] <= 5 else '>5'))
         if c['dtype'] == 'dyadic' and c['scale'] > 64:
             e = int(c['scale']).bit_length() - 1
